@@ -652,6 +652,10 @@ def programs(tier):
             ("<<x * y for x in [1, 2] for y in [x, 10]>>", "<<1, 4, 10, 20>>"), ("[[x, y] for x in [] for y in undefined_name_q]", "[]"),
             ("def n = 0; def mk() do n += 1; [n] end; [[x, y] for x in [1, 2, 3] for y in mk()]; n", "3"),
             ("[y for x in [[1, 2], [3]] for y in x]", "[1, 2, 3]"),
+            # a set or map that was iterated before and then changed in place is enumerated as it is now
+            ("def s = <<1, 2, 3>>; def r = []; for e in s do append(r, e) end; remove(s, 2); append(s, 5); [[e for e in s], r, string(s)]", "[[1, 3, 5], [1, 2, 3], '<<1, 3, 5>>']"),
+            ("def s = <<3, 1>>; [e for e in s]; append(s, 2); remove(s, 3); append(s, 0); def r = []; for e in s do append(r, e) end; r", "[0, 1, 2]"),
+            ("def m = <<<2 => 'b', 1 => 'a'>>>; [k for k in keys m]; remove(m, 2); m[0] = 'z'; [[k for k in keys m], [v for v in values m]]", "[[0, 1], ['z', 'a']]"),
             ("[1 / x for x in [1, 0, 2] if x != 0]", "[1, 0]"), ("<<1 / x for x in <<0, 1>> if x != 0>>", "<<1>>"),
             ("<<<x => 1 / x for x in [0, 1] if x != 0>>>", "<<<1 => 1>>>"),
             ("do [1 / x for x in [1, 0, 2] if x >= 0] catch all 'err' end", "'err'")]
